@@ -24,7 +24,7 @@ ASSUMPTIONS = ["a disconnect request is only issued while a connection is up or 
                "the real socket/asyncore dispatchers are driven through 6 scripted lifecycles each over loopback TCP (peer close, local disconnect, refused connect, login failure, stream error with automatic reconnect, re-login); a bare timeout there is reported as a violation only together with the observed announcement counts"]
 REQUIRED = ["pong_race_histories", "pong_delivered_inside_ping_send", "race_sweep_histories", "tick_race_paused_mid_step", "histories", "events", "checkpoints", "ev:connected", "ev:success", "ev:failure", "ev:stream-error", "ev:tick", "ev:pong",
             "ev:connected-held", "ev:connect-request-while-up", "ev:release-handshake", "ev:socket-error", "ev:peer-close", "ev:disconnect-request", "auto_reconnects", "ping_timeouts", "pings_seen", "states_visited",
-            "real_cases", "real_ok"]
+            "real_cases", "real_ok", "real_upward_failure_cases", "real_upward_failure_ok"]
 TIMEOUT = {"quick": 600, "thorough": 7200}
 
 
@@ -959,7 +959,11 @@ def run(spec, acc):
             if sc == "disconnect-before-select" and spec["dispatcher"] != "asyncore":
                 continue
             real_case(acc, spec["seed"], "real/%s/%d/%s" % (spec["dispatcher"], spec["rep"], sc), spec["dispatcher"], sc)
-        acc.sample({"real_dispatcher": spec["dispatcher"], "scenarios": REAL_SCENARIOS})
+        # a layer raises while an incoming frame travels upward (what an unknown stream-error kind does by design): the
+        # connection is announced down once, and a connect request afterwards starts a fresh login (harness shared with C12)
+        from vf.props import c12
+        c12.real_upward_failure_case(acc, spec["seed"], "ru16/%s/%d" % (spec["dispatcher"], spec["rep"]), spec["dispatcher"])
+        acc.sample({"real_dispatcher": spec["dispatcher"], "scenarios": REAL_SCENARIOS + ["layer-raises-on-incoming-frame"]})
         return
     if spec["kind"] == "pong-race":
         for interval in (1, 2, 3):
@@ -984,5 +988,9 @@ def replay(spec, acc):
     tag = spec["witness"]["tag"]
     if tag.startswith("real/"):
         real_case(acc, spec["seed"], tag, spec["witness"]["dispatcher"], spec["witness"]["scenario"])
+        return
+    if tag.startswith("ru16/"):
+        from vf.props import c12
+        c12.real_upward_failure_case(acc, spec["seed"], tag, spec["witness"]["dispatcher"])
         return
     one_history(acc, spec["seed"], tag)
